@@ -21,33 +21,57 @@ type rec struct {
 	big *big.Int
 }
 
-type replayFile struct {
+type replayCase struct {
+	Func   string            `json:"func"`
+	Pkg    string            `json:"pkg"`
 	Nondet []rec             `json:"nondet"`
 	Model  map[string]string `json:"model"`
 }
 
-var loaded *replayFile
+type replayFile struct {
+	Cases []replayCase `json:"cases"`
+}
+
+var file *replayFile
+var loaded *replayCase
 var cursor int
 
-func load() *replayFile {
-	if loaded != nil {
-		return loaded
+func loadFile() *replayFile {
+	if file != nil {
+		return file
 	}
-	loaded = &replayFile{}
+	file = &replayFile{}
 	if p := os.Getenv("ZZ_REPLAY"); p != "" {
 		b, err := os.ReadFile(p)
 		if err != nil {
 			panic(err)
 		}
-		if err := json.Unmarshal(b, loaded); err != nil {
+		if err := json.Unmarshal(b, file); err != nil {
 			panic(err)
 		}
 	}
-	return loaded
+	return file
 }
 
-// Reset restarts consumption of the recorded values (one replay per call).
-func Reset() { cursor = 0; Failures = nil }
+// Cases is the number of recorded counterexamples / path models to replay.
+func Cases() int { return len(loadFile().Cases) }
+
+// Select makes case i current and returns the harness function it belongs to.
+func Select(i int) (pkg, fn string) {
+	f := loadFile()
+	loaded = &f.Cases[i]
+	cursor = 0
+	Failures = nil
+	Covers = nil
+	return loaded.Pkg, loaded.Func
+}
+
+func load() *replayCase {
+	if loaded == nil {
+		loaded = &replayCase{}
+	}
+	return loaded
+}
 
 func next(kind string) *rec {
 	f := load()
